@@ -63,6 +63,22 @@ def addToNested (nested idxs : List Nat) : List Nat :=
 /-- number of entries strictly below the threshold (`np.count_nonzero(x < thr)`) -/
 def countBelow (t : Int) (ks : List Int) : Nat := (ks.filter (· < t)).length
 
+/-! primitives named by the definitions GENERATED from the source (`Gen/OrderedOps.lean`, harness/pyidx2lean.py) -/
+
+/-- `np.count_nonzero(col < threshold)`: `array < None` raises TypeError (`none`), except for an empty array -/
+def countBelowOpt (thr : Option Int) (ks : List Int) : Option Nat :=
+  if ks.isEmpty then some 0 else thr.map (countBelow · ks)
+
+/-- `get_inverse_indices(n, indices)`: `indices.max()` of an empty array raises ValueError -/
+def inverseIndices (n : Nat) (idx : List Nat) : Except Err (List Nat) :=
+  if idx.isEmpty then .error .valueErr else .ok (complement n idx)
+
+/-- `a[b]` for two index arrays (in range by the store invariant; NumPy would raise IndexError otherwise) -/
+def fancy (a b : List Nat) : List Nat := b.map (fun i => a.getD i 0)
+
+/-- `samples[indices]` -/
+def fancySmp (smp : List Smp) (idx : List Nat) : List Smp := idx.map (fun i => smp.getD i default)
+
 /-- `add_samples` -/
 def addSamples (s : OS) (b : List (Smp × Nat)) : Except Err OS :=
   match s.samples with
